@@ -1,4 +1,5 @@
 import OpacusLean.Generated.SamplerArith
+import OpacusLean.Generated.SamplerIter
 import OpacusLean.Model.Sampler
 import OpacusLean.Model.Binary64
 import Mathlib.Data.List.Basic
@@ -280,5 +281,25 @@ theorem generated_num_samples_eq_model (N W rank : Nat) :
     | rfl
     | (split_ifs <;> omega)
     | (split <;> simp_all <;> omega)
+
+/-- **generated_iter_eq_model**: `UniformWithReplacementSampler.__iter__` and `DistributedUniformWithReplacementSampler.__iter__` as written in
+the source under test (re-translated on every run, `Generated/SamplerIter.lean`), as functions of the uniforms drawn for each batch, are the
+model's `epoch` and `distEpoch .repaired`: exactly `steps` batches (empty ones included), one draw of `num_samples` uniforms per batch, position `i`
+in batch `b` iff `u b i < q`, ascending, the rank's positions mapped through its shard. Every theorem above about `epoch` / `distEpoch` is therefore
+about the source as it stands. -/
+theorem generated_iter_eq_model {R : Type} [LT R] [DecidableLT R] (steps : Nat) (q : R) (u : Nat → Nat → R) :
+    (∀ N, Opacus.Generated.SamplerIter.uniformIter steps q N u = epoch steps q N u) ∧
+    (∀ perm W rank, Opacus.Generated.SamplerIter.distIter steps q perm W rank u = distEpoch .repaired steps q perm W rank u) := by
+  refine ⟨fun N => ?_, fun perm W rank => ?_⟩
+  · simp only [Opacus.Generated.SamplerIter.uniformIter, epoch, batch]
+  · simp only [Opacus.Generated.SamplerIter.distIter, distEpoch, batch]
+
+/-- on the generated function itself: an epoch has exactly `steps` batches and batch `b` contains position `i < N` iff `u b i < q` -/
+theorem generated_iter_inclusion_law {R : Type} [LT R] [DecidableLT R] (steps : Nat) (q : R) (N : Nat) (u : Nat → Nat → R) :
+    (Opacus.Generated.SamplerIter.uniformIter steps q N u).length = steps ∧
+    ∀ b (hb : b < steps) i, i ∈ ((Opacus.Generated.SamplerIter.uniformIter steps q N u)[b]'(by
+        simp [Opacus.Generated.SamplerIter.uniformIter]; exact hb)) ↔ (i < N ∧ u b i < q) := by
+  refine ⟨by simp [Opacus.Generated.SamplerIter.uniformIter], fun b hb i => ?_⟩
+  simp [Opacus.Generated.SamplerIter.uniformIter]
 
 end Opacus.C09
